@@ -35,7 +35,7 @@ BASES = ["", "b", "b/..", "../b", "../.."]
 FLAGS = ("temp", "clean", "filed", "extensioned", "reuse", "clear")
 STRICT_INTERMEDIATE = False      # True: persistent intermediate directories left behind by clear are violations too
 
-SANDBOX_ROOT = "/dev/shm/vf_c29_%d"
+SANDBOX_ROOT = ("/dev/shm" if os.path.isdir("/dev/shm") and os.access("/dev/shm", os.W_OK) else "/var/tmp") + "/vf_c29_%d"
 # layout below the per-case top directory; the deepest escape possible with these names/bases is four levels above
 # <head>/hio, i.e. S itself (and rmtree(dirname) of it), so 'outer' and the top directory always survive
 S = os.path.join("outer", "S")
